@@ -261,7 +261,7 @@ void Model::candidates(int mi, int s, int ev, std::vector<int>& rows, bool& forw
     const DState& st = S(s);
     if (st.kind == SK_SUB) {
         if (mp()) forward = dl_.ct ? true : mp_needs_forward(st.sub, ev);
-        else forward = dl_.ct ? true : event_in_recursive_set(st.sub, ev, false);
+        else forward = dl_.ct ? (ev != EV_NONE) : event_in_recursive_set(st.sub, ev, false); // [B ct] completion events are not forwarded
     }
     for (int k = (int)st.irows.size() - 1; k >= 0; --k)
         if (matches(d_->rows[st.irows[k]].trigger, ev)) rows.push_back(st.irows[k]);
@@ -543,10 +543,15 @@ void Model::b_do_entry(int mi, const DRow* r, const MEv& e, int trigger, int fsm
     set_active_by_history(mi, st, r != nullptr);
     I.busy = true;                                              // C04: block immediate handling during the entry cascade
     I.running = true;
-    call(K_N, own_site(mi), fsm_mi, info_static(e, trigger));   // C02/C07: the sub-machine's own entry first
-    if (r) for (int t : r->tgts) I.active[S(t).region] = S(t).lib_id;   // C09: named regions overridden
-    b_internal_start(mi, e, trigger);
-    if (r && r->tkind == TK_ENTRY_PT) b_process_internal(mi, MEv{(int16_t)(trigger >= 0 ? trigger : e.ev), e.occ}, SRC_DIRECT); // second leg
+    try {
+        call(K_N, own_site(mi), fsm_mi, info_static(e, trigger));   // C02/C07: the sub-machine's own entry first
+        if (r) for (int t : r->tgts) I.active[S(t).region] = S(t).lib_id;   // C09: named regions overridden
+        b_internal_start(mi, e, trigger);
+        if (r && r->tkind == TK_ENTRY_PT) b_process_internal(mi, MEv{(int16_t)(trigger >= 0 ? trigger : e.ev), e.occ}, SRC_DIRECT); // second leg
+    } catch (Injected&) {
+        I.busy = false;                                         // C12: not wedged after an exception
+        throw;
+    }
     I.busy = false;
     if (M(mi).has_deferred) b_handle_deferred(mi, true);
     b_process_msg_queue(mi);
@@ -631,12 +636,14 @@ size_t Model::m_do_process_pool(int mi, size_t max_events) {
         if (idx >= I.pool.size()) break;
         if (I.pool[idx].marked) { I.pool.erase(I.pool.begin() + idx); continue; }
         PItem it = I.pool[idx];
+        // C10: armed completion occurrences belong to the step of the event that armed them: they are
+        // processed even when the limit of a single-step drain is reached and are not counted (C04)
+        bool is_completion = it.kind == 1;
+        if (processed == max_events && !is_completion) break;
         bool dispatched = false;
         int result = 0;
-        if (it.kind == 1) {
+        if (is_completion) {
             I.pool[idx].marked = true;
-            size_t before = I.pool.size();
-            (void)before;
             result = m_completion(mi, it.state, it.region);
             dispatched = true;
         } else {
@@ -648,10 +655,7 @@ size_t Model::m_do_process_pool(int mi, size_t max_events) {
             }
         }
         if (!dispatched) { ++idx; continue; }
-        if (result != R_DEFERRED) {
-            ++processed;
-            if (processed == max_events) break;
-        }
+        if (result != R_DEFERRED && !is_completion) ++processed;
         idx = 0;
         if (!(result & R_DEFERRED)) I.cur_seq_cnt += 1;
     } while (idx < I.pool.size());
@@ -698,16 +702,21 @@ void Model::m_on_entry(int mi, const DRow* r, const MEv& e, int trigger, int fsm
     MInst& I = inst_[mi];
     I.running = true;
     I.busy = true;
-    call(K_N, own_site(mi), fsm_mi, info_static(e, trigger), 0, M(mi).parent < 0);
-    int st = trigger >= 0 ? trigger : e.ev;
-    bool all_regions = r && r->tgts.size() == I.active.size();
-    if (!all_regions) set_active_by_history(mi, st, false);
-    if (r) for (int t : r->tgts) I.active[S(t).region] = S(t).lib_id;
-    for (size_t reg = 0; reg < I.active.size(); ++reg) {
-        int s = state_of(mi, I.active[reg]);
-        if (S(s).kind == SK_SUB) m_on_entry(S(s).sub, nullptr, e, trigger, mi);
-        else enter_simple(mi, s, e, trigger);
-        m_entry_completed(mi, s, (int)reg);
+    try {
+        call(K_N, own_site(mi), fsm_mi, info_static(e, trigger), 0, M(mi).parent < 0);
+        int st = trigger >= 0 ? trigger : e.ev;
+        bool all_regions = r && r->tgts.size() == I.active.size();
+        if (!all_regions) set_active_by_history(mi, st, false);
+        if (r) for (int t : r->tgts) I.active[S(t).region] = S(t).lib_id;
+        for (size_t reg = 0; reg < I.active.size(); ++reg) {
+            int s = state_of(mi, I.active[reg]);
+            if (S(s).kind == SK_SUB) m_on_entry(S(s).sub, nullptr, e, trigger, mi);
+            else enter_simple(mi, s, e, trigger);
+            m_entry_completed(mi, s, (int)reg);
+        }
+    } catch (Injected&) {
+        I.busy = false;                                         // C12: not wedged after an exception
+        throw;
     }
     I.busy = false;
     m_process_pool(mi, SIZE_MAX);
@@ -802,7 +811,7 @@ bool Model::move_assign_from(IMachine& o) {
     return true;
 }
 bool Model::save(int, std::string& out) {
-    if (mp()) return false;
+    if (mp() || !d_->serializable) return false;
     // C16: active ids, history memory and opted-in state data of every level
     out.clear();
     for (auto& I : inst_) {
